@@ -416,6 +416,8 @@ class Interp:
             return Path("basename", args[0])
         if fn == "os.path.dirname":
             return Path("dirname", args[0])
+        if fn == "os.path.join":
+            return Path("join", args[0], tuple(args[1:]))
         if fn == "tempfile.mkstemp":
             return self.mkstemp(kw.get("prefix"), kw.get("dir"))
         if fn == "os.close":
